@@ -369,7 +369,17 @@ func oracleOps(t *testing.T, opsPath, outPath string) {
 	w := wire.Create(outPath)
 	defer w.Close()
 	for _, cs := range splitCases(wire.ReadLines(opsPath)) {
-		w.Line(oracleCase(t, cs))
+		head := cs[0]
+		switch {
+		case len(head) >= 4 && strings.HasPrefix(head[2], "joinx"):
+			w.Line("OK")
+		case len(head) >= 4 && strings.HasPrefix(head[2], "join"):
+			w.Line(oracleJoinCase(t, cs))
+		case len(head) >= 3 && strings.HasPrefix(head[2], "mem"):
+			w.Line(oracleMemCase(t, cs))
+		default:
+			w.Line(oracleCase(t, cs))
+		}
 		w.Flush()
 	}
 }
